@@ -37,7 +37,7 @@ def run(ctx):
         for i in range(30 if q else 3000):
             prog, _ = pvmgen.random_program(rng, clean=rng.n(4) != 0, ops=pvmgen.NOJUMPIND, forward=True)   # loop-free: large limits must terminate
             n_guess = len(prog["code"])
-            lims = ([0, 1, 3, 8, n_guess, 400] if q else [0, 1, 2, 3, 5, 8, 13, 21, 34, n_guess, 60, 399, 400, 401]) + BIG + [rng.u64(), rng.u64() | (1 << 63)]
+            lims = ([0, 1, 3, 8, n_guess, 400, 401] if q else [0, 1, 2, 3, 5, 8, 13, 21, 34, n_guess, 60, 399, 400, 401]) + BIG + [rng.u64(), rng.u64() | (1 << 63)]
             inv.append({"id": "i%d" % i, "prog": prog, "limits": [pvmgen.le(x) for x in lims]})
     binp = vf.build_driver(ctx, "pvm", "./PVM", c01.FILES)
     lines = []
@@ -50,7 +50,7 @@ def run(ctx):
     if inv:
         casep = ctx.tmp + "/inv.ndjson"; pvmgen.dump(inv, casep)
         tracep = ctx.tmp + "/invtrace.ndjson"
-        vf.run_driver(ctx, binp, "TestInvoke", env={"VF_CASES": casep, "VF_OUT": tracep})
+        vf.run_driver(ctx, binp, "TestInvoke", env={"VF_CASES": casep, "VF_OUT": tracep}, timeout=300)
         lines += vf.read_lines(tracep)
     ctx.cov["evaluations"] = len(lines)
     ctx.cov["distinct_nontrivial"] = vf.distinct_count([l for l in lines if '"exit":"oog"' in l or '"res":"oog"' in l])
